@@ -21,8 +21,8 @@ CHECKS = {
    text='Every posterior row is looked up in the recorder of the pure likelihood (exact argument bytes -> log_l, blob), must occur once and is re-evaluated; exceptions raised inside nautilus count as violations.',
    note='Likelihood library verified bit-identical in scalar and vectorised mode at start-up.'),
  'C05': dict(engine='e1', cat='fault_enumeration', ref='5 (C05)',
-   technique='deterministic simulation with fault injection: every batch boundary of a configuration as a crash point (resume + one batch, also after an injected kill) against a reference, plus seeded multi-stop chains to completion against the fault-free twin',
-   text='Exhaustive over batch boundaries within each sampled configuration (one-step equivalence of the complete state incl. checkpoint content and generator), sampled over configurations and over multi-stop chains; bit-identity of final posterior, log_z, n_eff, n_like; no argument evaluated twice.',
+   technique='deterministic simulation with fault injection: every batch boundary of a configuration as a crash point (resume + one batch, also after an injected kill) against a reference; seeded multi-stop chains (stops, kills, timeouts, restart over a leftover file) to completion against the fault-free twin; real process kills inside checkpoint writes (libc interposer) followed by a real resume',
+   text='Exhaustive over batch boundaries within each sampled configuration (one-step equivalence of the complete state incl. checkpoint content, generator, bound proposal caches and iteration counters; differences confirmed by running to completion), sampled over configurations, multi-stop chains and kill points inside checkpoint writes; bit-identity of final posterior, log_z, n_eff, n_like; no argument evaluated twice.',
    note='One BLAS thread, fixed PYTHONHASHSEED; kills land inside likelihood batches (inside checkpoint writes: C06).'),
  'C10': dict(engine='e1', cat='exploration', ref='5 (C10)',
    technique='deterministic simulation with fault injection: simulated clock, per-call costs, stalls, budgets from 0 upward, kills/resumes; call recorder as ground truth',
